@@ -147,6 +147,70 @@ class Normaliser:
                 r = self._root(n.func.value)
                 if r is not None:
                     self.mutated.add(r)
+        # names that may denote the same object as a mutated name are mutated too: `y = x`, `a = b = e`, `t = (x, y)`, `for y in (p, q)`
+        groups: Dict[str, str] = {}
+
+        def find(x):
+            groups.setdefault(x, x)
+            while groups[x] != x:
+                groups[x] = groups[groups[x]]
+                x = groups[x]
+            return x
+
+        def link(a, b):
+            groups[find(a)] = find(b)
+
+        def names_of_display(e):
+            if isinstance(e, ast.Name):
+                return [e.id]
+            if isinstance(e, (ast.Tuple, ast.List, ast.Set)):
+                return [nm for x in e.elts for nm in names_of_display(x)]
+            if isinstance(e, ast.IfExp):
+                return names_of_display(e.body) + names_of_display(e.orelse)
+            if isinstance(e, ast.BoolOp):
+                return [nm for x in e.values for nm in names_of_display(x)]
+            if isinstance(e, ast.Starred):
+                return names_of_display(e.value)
+            return []
+        for n in ast.walk(fn):
+            if isinstance(n, ast.Assign):
+                tn = [nm for t in n.targets for nm in names_of_display(t)]
+                for a_, b_ in zip(tn, tn[1:]):
+                    if len(n.targets) > 1:
+                        link(a_, b_)
+                vn = names_of_display(n.value)
+                for t in n.targets:
+                    for a_ in names_of_display(t):
+                        for b_ in vn:
+                            link(a_, b_)
+            elif isinstance(n, (ast.For, ast.comprehension)):
+                for a_ in names_of_display(n.target):
+                    for b_ in names_of_display(n.iter):
+                        link(a_, b_)
+        if self.mutated and groups:
+            roots = {find(x) for x in self.mutated if x in groups}
+            self.mutated |= {x for x in list(groups) if find(x) in roots}
+        self.alias: Dict[str, str] = {}   # dynamic: closed names that may denote the same object (union-find)
+
+    def alias_find(self, x):
+        a = self.alias
+        a.setdefault(x, x)
+        while a[x] != x:
+            a[x] = a[a[x]]
+            x = a[x]
+        return x
+
+    def alias_link(self, x, y):
+        self.alias[self.alias_find(x)] = self.alias_find(y)
+
+    def aliases_of(self, names) -> set:
+        """the given closed names together with every name that may denote the same object"""
+        if not self.alias:
+            return set(names)
+        roots = {self.alias_find(n_) for n_ in names if n_ in self.alias}
+        if not roots:
+            return set(names)
+        return set(names) | {n_ for n_ in list(self.alias) if self.alias_find(n_) in roots}
 
     @staticmethod
     def _same_def(a, b):
@@ -796,6 +860,7 @@ class Normaliser:
         """the named variables were rebound / the named objects were mutated: tests that mention them may evaluate differently from now on"""
         if not self.decided or not closed_names:
             return
+        closed_names = self.aliases_of(closed_names)
         reps = [repr(self.name_form(nm)) for nm in closed_names]
         for k in list(self.decided):
             if any(r in k for r in reps):
@@ -927,6 +992,11 @@ class Normaliser:
         return any(isinstance(x, ast.Name) and x.id in names for x in ast.walk(expr))
 
     def materialise(self, env, names, eff, rebinding=False):
+        if not rebinding:
+            names = self.aliases_of(names)   # mutating an object changes what every name for it shows
+        self._materialise(env, names, eff, rebinding)
+
+    def _materialise(self, env, names, eff, rebinding=False):
         """bindings whose value mentions something that is about to change become variables of their own.  rebinding=False: the named objects are
         about to be mutated -- a name that simply *is* one of them stays an alias (a later mutation through it is then seen as a mutation of the
         same object); rebinding=True: the named variables are about to be rebound -- an alias must keep the present value"""
@@ -988,6 +1058,9 @@ class Normaliser:
                     env[other] = ast.Name(id=OP + other, ctx=ast.Load())
         eff.extend(self.emit("bind", [value], lambda fs: ("bind", self.vform(nm), fs[0])))
         self.invalidate({OP + nm})
+        for x in ast.walk(value):
+            if isinstance(x, ast.Name) and x.id != OP + nm:
+                self.alias_link(OP + nm, x.id)   # the new value may be (part of) an object those names denote
         env[nm] = ast.Name(id=OP + nm, ctx=ast.Load())
 
     def assign(self, target, value, env, eff, pure):
@@ -1169,8 +1242,16 @@ class Normaliser:
             if isinstance(s, ast.Assign):
                 v = self.subst(s.value, env)
                 pure = self.pure(s.value)
-                for t in s.targets:
-                    self.assign(t, v, env, eff, pure)
+                first = s.targets[0]
+                self.assign(first, v, env, eff, pure)
+                for t in s.targets[1:]:
+                    # a = b = e: e is evaluated once; what the first target got is what the others get
+                    if isinstance(first, ast.Name):
+                        self.assign(t, self.subst(ast.Name(id=first.id, ctx=ast.Load()), env), env, eff, True)
+                    elif isinstance(v, (ast.Name, ast.Constant)):
+                        self.assign(t, v, env, eff, True)
+                    else:
+                        raise Unsupported("chained assignment with a structured first target")
                 continue
             if isinstance(s, ast.AnnAssign):
                 if s.value is not None:
